@@ -3,6 +3,7 @@
   (store level, all three back ends, every history).
 -/
 import Xandikos.Store.UidProofs
+import Xandikos.Tie.ExcTablesEq
 
 namespace Xandikos.Theorems.C06
 open Xandikos Xandikos.Store
@@ -201,5 +202,24 @@ theorem coherent_by_extension (env : Env) (n t : String) (r : Option String)
   simp [Coherent, handlerFor, uidOf, hn]
 
 example (env : Env) : UidInv env (init .tree) := UidInv.init env .tree
+
+/-- **the code is the model (HTTP mapping)**: with the `except` tables of `set_body`,
+    `create_member` and the PUT / POST handlers as translated from /repo on this run, a
+    `DuplicateUidError` of the store is answered with the `no-uid-conflict` precondition on
+    every path a write can take (update, creation by PUT, creation by POST) -/
+theorem code_maps_uid_conflict :
+    Tie.answerTo Generated.exception_bases Generated.set_body_raises Generated.put_update_answers "DuplicateUidError"
+      = .refused "no-uid-conflict" ∧
+    Tie.answerTo Generated.exception_bases Generated.create_member_raises Generated.put_create_answers "DuplicateUidError"
+      = .refused "no-uid-conflict" ∧
+    Tie.answerTo Generated.exception_bases Generated.create_member_raises Generated.post_answers "DuplicateUidError"
+      = .refused "no-uid-conflict" := ⟨rfl, rfl, rfl⟩
+
+/-- the three tables agree with `Http.ofStoreOut` on every refusal of the store model -/
+theorem code_is_model_exception_tables (o : Out) (e : String) (h : Tie.excOf o = some e) :
+    Tie.answerTo Generated.exception_bases Generated.set_body_raises Generated.put_update_answers e = Http.ofStoreOut false o ∧
+    Tie.answerTo Generated.exception_bases Generated.create_member_raises Generated.put_create_answers e = Http.ofStoreOut true o ∧
+    Tie.answerTo Generated.exception_bases Generated.create_member_raises Generated.post_answers e = Http.ofStoreOut true o :=
+  ⟨Tie.put_update_table o e h, Tie.put_create_table o e h, Tie.post_table o e h⟩
 
 end Xandikos.Theorems.C06
